@@ -14,7 +14,7 @@ RULE = (
     "exhaustive: ALL histories of length <=4 (thorough: <=5 on the first cube) over the alphabet {update_dm(v): v in {dm0, "
     "dm0+-D1, dm0+D2, dm0+D3 (many turns), dm0+d (sub-bin)}} u {update_period(p): p in {p0, p0(1+e1), p0(1-e2), p0(1+tiny), p0(1+E) (hundreds of bins)}} on fixed cubes whose every profile is a "
     "permutation of distinct values (so a rotation is identifiable) and whose band/tobs make the shifts non-zero; "
-    "random: Hypothesis cubes (nints 1-5, nbands 1-6, nbins 8-64) x histories of <=30 updates with arbitrary targets. "
+    "random: Hypothesis cubes (nints 1-5, nbands 1-6, nbins 8-64, C / F-ordered / transposed / strided / reversed memory layouts) x histories of <=30 updates with arbitrary targets. "
     "After every step: .dm/.period = last value set; every profile is a rotation of its original; the cube equals a "
     "fresh copy of the as-folded cube updated once to the current (dm,period) in either order (which agree); a repeated "
     "update is a no-op; back at (dm0,p0) the cube is bit-identical to the original; the per-sub-band shift for a DM "
@@ -46,7 +46,10 @@ def mk_cube(spec):
     nchans = spec["nchans"]
     hdr = Header(filename="f.fil", data_type="filterbank", nchans=nchans, foff=spec["foff"], fch1=spec["fch1"],
                  nbits=8, tsamp=spec["tsamp"], tstart=55000.0, nsamples=spec["nsamples"])
-    return FoldedData(data.copy(), hdr, spec["p0"], spec["dm0"]), data, hdr
+    # the same values in another memory layout (F-order, transposed or strided view) are the same cube
+    from vlib.strategies import relayout
+
+    return FoldedData(relayout(data.copy(), spec.get("layout", "C")), hdr, spec["p0"], spec["dm0"]), data, hdr
 
 
 def targets(spec):
@@ -179,8 +182,8 @@ def run_history(spec, ops, label_extra=()):
 
 FIXED_CUBES = [
     {"nints": 3, "nbands": 4, "nbins": 16, "seed": 1, "nchans": 64, "foff": -2.0, "fch1": 500.0, "tsamp": 1e-3, "nsamples": 200000, "p0": 0.1, "dm0": 30.0},
-    {"nints": 2, "nbands": 3, "nbins": 32, "seed": 2, "nchans": 96, "foff": -1.0, "fch1": 350.0, "tsamp": 64e-6, "nsamples": 4000000, "p0": 0.0337, "dm0": 0.0},
-    {"nints": 4, "nbands": 1, "nbins": 8, "seed": 3, "nchans": 32, "foff": -4.0, "fch1": 800.0, "tsamp": 1e-3, "nsamples": 600000, "p0": 0.5, "dm0": 100.0},
+    {"layout": "F", "nints": 2, "nbands": 3, "nbins": 32, "seed": 2, "nchans": 96, "foff": -1.0, "fch1": 350.0, "tsamp": 64e-6, "nsamples": 4000000, "p0": 0.0337, "dm0": 0.0},
+    {"layout": "strided_view", "nints": 4, "nbands": 1, "nbins": 8, "seed": 3, "nchans": 32, "foff": -4.0, "fch1": 800.0, "tsamp": 1e-3, "nsamples": 600000, "p0": 0.5, "dm0": 100.0},
     {"nints": 1, "nbands": 6, "nbins": 64, "seed": 4, "nchans": 96, "foff": 1.0, "fch1": 300.0, "tsamp": 1e-3, "nsamples": 100000, "p0": 0.0123, "dm0": 12.5},
 ]
 
@@ -214,7 +217,8 @@ def strat_random(draw):
             "seed": draw(st.integers(0, 2**31 - 1)), "nchans": nchans, "foff": foff,
             "fch1": draw(st.sampled_from([200.0, 350.0, 500.0, 800.0])) + (abs(foff) * nchans if foff < 0 else 0.0),
             "tsamp": draw(st.sampled_from([1e-3, 64e-6])), "nsamples": draw(st.integers(10**5, 10**7)),
-            "p0": draw(st.sampled_from([0.1, 0.0337, 0.5, 0.0123, 1.0])), "dm0": draw(st.sampled_from([0.0, 10.0, 56.7, 300.0]))}
+            "p0": draw(st.sampled_from([0.1, 0.0337, 0.5, 0.0123, 1.0])), "dm0": draw(st.sampled_from([0.0, 10.0, 56.7, 300.0])),
+            "layout": draw(st.sampled_from(["C", "C", "C", "F", "transposed_view", "strided_view", "reversed_view"]))}
     ops = draw(st.lists(st.tuples(st.sampled_from(["dm", "p", "dm0", "p0"]), st.floats(-8, 8, allow_nan=False)), min_size=1, max_size=30))
     return {"spec": spec, "ops": [[k, v] for k, v in ops]}
 
